@@ -45,6 +45,13 @@ struct World {
     in_poll: bool,
     deliveries: Vec<u8>,
     pending_inserts: Vec<u8>,
+    /// streams may run out of cooperative budget inside a poll of the queue: from then on every
+    /// stream poll of that call wakes its caller and returns Pending (what a tokio transport does
+    /// for a future driven by block_on)
+    coop_on: bool,
+    exhausted: bool,
+    refusals: u32,
+    spun: bool,
 }
 thread_local! { static W: RefCell<Option<World>> = const { RefCell::new(None) }; }
 fn w<R>(f: impl FnOnce(&mut World) -> R) -> R {
@@ -56,6 +63,27 @@ impl Stream for Scripted {
     type Item = u32;
     fn poll_next(self: Pin<&mut Self>, cx: &mut Context<'_>) -> Poll<Option<u32>> {
         let id = self.0 as usize;
+        let refuse = w(|w| {
+            if !(w.coop_on && w.faults_on && w.in_poll) {
+                return false;
+            }
+            if !w.exhausted && rt::draw_rare(Tape::Io, 2, 1, 10) == 1 {
+                w.exhausted = true;
+                rt::count("fault_coop_budget_exhausted");
+            }
+            if w.exhausted {
+                w.refusals += 1;
+            }
+            w.exhausted
+        });
+        if refuse {
+            if w(|w| w.refusals) > 20_000 {
+                w(|w| w.spun = true);
+                std::panic::resume_unwind(Box::new(rt::net::CoopSpin));
+            }
+            cx.waker().wake_by_ref();
+            return Poll::Pending;
+        }
         // a foreign action may land right before the stream looks at its queue ...
         act(foreign(true));
         let (res, old) = w(|w| {
@@ -196,8 +224,9 @@ pub fn run(ctx: &mut Ctx) {
     let chaos = 60 + ctx.plan(600);
     let initially_inserted = ctx.plan(n as u64 + 1) as usize;
     let do_remove = ctx.plan(4) == 0;
+    let coop_on = ctx.plan(3) == 1;
     W.with(|x| {
-        *x.borrow_mut() = Some(World { peers: (0..n).map(|_| Peer::default()).collect(), faults_on: true, allow_spurious, extra_tokens: 0, in_window_wakes: 0, in_window_inserts: 0, in_poll: false, deliveries: vec![], pending_inserts: vec![] })
+        *x.borrow_mut() = Some(World { peers: (0..n).map(|_| Peer::default()).collect(), faults_on: true, allow_spurious, extra_tokens: 0, in_window_wakes: 0, in_window_inserts: 0, in_poll: false, deliveries: vec![], pending_inserts: vec![], coop_on, exhausted: false, refusals: 0, spun: false })
     });
     let mut probe: FairQueueProbe<Scripted, u8> = FairQueueProbe::new(true);
     HANDLE.with(|h| *h.borrow_mut() = Some(probe.handle()));
@@ -221,8 +250,22 @@ pub fn run(ctx: &mut Ctx) {
     let mut poll_once = |probe: &mut FairQueueProbe<Scripted, u8>, seen: &mut u64, parked: &mut bool, violations: &mut Vec<(&'static str, String)>, fairness_bound: Option<u64>| -> bool {
         *seen = rw.0.load(Ordering::SeqCst);
         w(|w| w.in_poll = true);
-        let r = probe.poll_next(&mut cx);
-        w(|w| w.in_poll = false);
+        let r = std::panic::catch_unwind(std::panic::AssertUnwindSafe(|| probe.poll_next(&mut cx)));
+        w(|w| {
+            w.in_poll = false;
+            w.exhausted = false;
+            w.refusals = 0;
+        });
+        let r = match r {
+            Ok(r) => r,
+            Err(p) => {
+                if p.is::<rt::net::CoopSpin>() {
+                    violations.push(("spins_when_stream_yields", "poll_next kept polling a stream that had told it to yield (20000 times within one call): the stream wakes its caller and returns Pending until the task goes back to the executor, as a tokio transport does once its cooperative budget is used up in a future driven by block_on; the call never returns".into()));
+                    return false;
+                }
+                std::panic::resume_unwind(p);
+            }
+        };
         match r {
             Poll::Ready(Some((k, v))) => {
                 *parked = false;
@@ -279,7 +322,7 @@ pub fn run(ctx: &mut Ctx) {
         } else {
             act(foreign(false));
         }
-        if violations.len() > 3 {
+        if violations.len() > 3 || w(|w| w.spun) {
             break;
         }
     }
@@ -338,7 +381,7 @@ pub fn run(ctx: &mut Ctx) {
                 break;
             }
             poll_once(&mut probe, &mut seen, &mut parked, &mut violations, Some(bound));
-            if violations.len() > 3 {
+            if violations.len() > 3 || w(|w| w.spun) {
                 break;
             }
         }
@@ -357,13 +400,13 @@ pub fn run(ctx: &mut Ctx) {
             break;
         }
         poll_once(&mut probe, &mut seen, &mut parked, &mut violations, None);
-        if violations.len() > 3 {
+        if violations.len() > 3 || w(|w| w.spun) {
             break;
         }
     }
     zmq_sim_sync::set_preempt_hook(None);
     // ---- quiescence oracles ----------------------------------------------------------------------
-    let aborted = violations.len() > 3;
+    let aborted = violations.len() > 3 || w(|w| w.spun);
     let (iw, ii, dels) = w(|w| {
         for (i, p) in w.peers.iter().enumerate() {
             if aborted {
